@@ -109,7 +109,12 @@ def draw(rep, prog):
             if lab:
                 kwl = {k.arg: k.value for k in lab[0].keywords}
                 r = kwl.get('reverse')
-                okd = r is not None and ast.unparse(r).replace(' ', '') == 'reverseifnotelement.is_reverseelsenotreverse'
+                el_name = None
+                for a_ in ast.walk(fn):
+                    if isinstance(a_, ast.Assign) and isinstance(a_.value, ast.Call) and ast.unparse(a_.value.func) == 'self.diagram_parser.get_element' and isinstance(a_.targets[0], ast.Name):
+                        el_name = a_.targets[0].id
+                okd = r is not None and el_name is not None and ast.unparse(r).replace(' ', '') in (
+                    f'reverseifnot{el_name}.is_reverseelsenotreverse', f'notreverseif{el_name}.is_reverseelsereverse', f'reverse!={el_name}.is_reverse', f'reverse^{el_name}.is_reverse')
             rep.ob('R14.draw', f'draw_{q}:arrow', okd, 'label arrow = reverse XOR element.is_reverse', site)
 
 
